@@ -810,9 +810,19 @@ pub fn judge_damaged(env: &Env, prop: &str, sub: &str, mode: &str, res: &Res<Val
                 }
                 _ => {
                     // c06: structural walk
-                    let avail = if env.container.compressed() { usize::MAX / 4 } else { image_len };
+                    // what the input can have encoded: everything for the plain containers; for the encrypted-plain
+                    // container only its plaintext (every chunk of at most `bufsize` plaintext bytes costs 24 bytes of
+                    // framing, the file 12 bytes of nonce); unknown when a decompressor sits in between
+                    let avail = if env.container.compressed() {
+                        usize::MAX / 4
+                    } else if env.container.encrypted() {
+                        let b = env.bufsize.max(1) as u128;
+                        ((image_len.saturating_sub(12) as u128) * b / (b + 24)) as usize
+                    } else {
+                        image_len
+                    };
                     let mut w = Walker::new(avail);
-                    let wr = guarded(|| env.subj.walk(v, &mut w));
+                    let wr = guarded(|| { env.subj.walk(v, &mut w); w.check_total() });
                     if let Err(p) = wr {
                         violation = viol(&o("walk-panic"), format!("walking the returned value panicked: {} at {}", p.msg, p.site()), fault_kind, region, panic_site(&p));
                     } else if let Some(p) = w.problems.first() {
